@@ -19,7 +19,8 @@ Definition sock_recv (n : nat) (nt : net) : rcv * net :=
   | [] => (RData [], [])
   | TimeoutEv :: r => (RIntr Timeout, r)      (* socket.timeout, re-raised as Timeout *)
   | ErrorEv c :: r => (RIntr (OSErr c), r)    (* any other socket error propagates *)
-  | Chunk c :: r =>
+  | Chunk c :: r | SlowChunk c :: r =>
+      (* (what is left of a slow delivery is there when asked for again) *)
       if Nat.leb (length c) n then (RData c, r)
       else (RData (firstn n c), Chunk (skipn n c) :: r)
   end.
@@ -31,7 +32,7 @@ Definition sock_send (data : bytes) (sc : list sev) : sres * list sev :=
   | [] => (SSent (length data), [])
   | STimeoutEv :: r => (SIntr Timeout, r)
   | SErrorEv c :: r => (SIntr (OSErr c), r)
-  | SAccept k :: r => (SSent (Nat.min (S k) (length data)), r)
+  | SAccept k :: r | SSlowAccept k :: r => (SSent (Nat.min (S k) (length data)), r)
   end.
 
 (* an upper bound on the number of sock.recv calls that return data or time
@@ -39,7 +40,7 @@ Definition sock_send (data : bytes) (sc : list sev) : sres * list sev :=
 Fixpoint net_size (n : net) : nat :=
   match n with
   | [] => 0
-  | Chunk b :: r => S (length b) + net_size r
+  | Chunk b :: r | SlowChunk b :: r => S (length b) + net_size r
   | _ :: r => S (net_size r)
   end.
 
@@ -63,20 +64,25 @@ Record bs := mkBS {
   recvsize : nat;            (* self._recvsize *)
   sbuf : list bytes;         (* self.sbuf *)
   script : list sev;         (* the sending network still to come *)
-  wire : bytes               (* what the peer has received *)
+  wire : bytes;              (* what the peer has received *)
+  dl : bool                  (* bool(self.timeout): `if timeout:` deadline checks are active *)
 }.
 
-Definition bs_init (mx rs : nat) (n : net) (sc : list sev) : bs :=
-  mkBS [] n (Some mx) rs [] sc [].
+Definition bs_init_dl (mx rs : nat) (d : bool) (n : net) (sc : list sev) : bs :=
+  mkBS [] n (Some mx) rs [] sc [] d.
+Definition bs_init (mx rs : nat) (n : net) (sc : list sev) : bs := bs_init_dl mx rs false n sc.
 
 Definition set_recv (s : bs) (rb : bytes) (n : net) : bs :=
-  mkBS rb n (maxsize s) (recvsize s) (sbuf s) (script s) (wire s).
+  mkBS rb n (maxsize s) (recvsize s) (sbuf s) (script s) (wire s) (dl s).
 
 (* ---- recv_until ------------------------------------------------------------------------ *)
 Inductive ru_res := RuFound (off : nat) (recvd : bytes) | RuExn (e : exn) (recvd : bytes).
 
-(* the `while 1` loop; start = the (clamped) value of find_offset_start *)
-Fixpoint ru_loop (fuel : nat) (d : bytes) (lim : limit) (rs : nat)
+(* the `while 1` loop; start = the (clamped) value of find_offset_start;
+   d_on = bool(timeout) of this call, late = the deadline has passed (a slow
+   delivery was received during this call):
+   `if timeout: cur_timeout = timeout - (time.time() - start); if cur_timeout <= 0.0: raise socket.timeout()` *)
+Fixpoint ru_loop (fuel : nat) (d : bytes) (lim : limit) (rs : nat) (d_on late : bool)
          (recvd : bytes) (start : nat) (n : net) : ru_res * net :=
   match fuel with
   | 0 => (RuExn OutOfFuel recvd, n)
@@ -85,6 +91,7 @@ Fixpoint ru_loop (fuel : nat) (d : bytes) (lim : limit) (rs : nat)
       | Some off => (RuFound off recvd, n)
       | None =>
           if lim_exceeded lim recvd then (RuExn MessageTooLong recvd, n)
+          else if d_on && late then (RuExn Timeout recvd, n)
           else match sock_recv rs n with
                (* except socket.timeout / except Exception: both store recvd into rbuf *)
                | (RIntr e, n') => (RuExn e recvd, n')
@@ -92,20 +99,25 @@ Fixpoint ru_loop (fuel : nat) (d : bytes) (lim : limit) (rs : nat)
                | (RData nxt, n') =>
                    (* recvd.extend(nxt); find_offset_start = -len(nxt) - len_delimiter + 1,
                       i.e. max(0, len(old) - len_delimiter + 1) from the front *)
-                   ru_loop f d lim rs (recvd ++ nxt) (length recvd + 1 - length d) n'
+                   ru_loop f d lim rs d_on (late || slow_head n) (recvd ++ nxt)
+                           (length recvd + 1 - length d) n'
                end
       end
   end.
 
-Definition recv_until (s : bs) (d : bytes) (m : msz) (w : bool) : outcome * bs :=
+(* recv_until with the per-call timeout's truth value given explicitly *)
+Definition recv_until_dl (d_on : bool) (s : bs) (d : bytes) (m : msz) (w : bool) : outcome * bs :=
   let lim := resolve (maxsize s) m in
-  match ru_loop (S (net_size (nt s))) d lim (recvsize s) (rbuf s) 0 (nt s) with
+  match ru_loop (S (net_size (nt s))) d lim (recvsize s) d_on false (rbuf s) 0 (nt s) with
   | (RuFound off recvd, n') =>
       (* val, self.rbuf = recvd[:offset], recvd[rbuf_offset:] *)
       (OBytes (firstn (if w then off + length d else off) recvd),
        set_recv s (skipn (off + length d) recvd) n')
   | (RuExn e recvd, n') => (OExn e, set_recv s recvd n')      (* self.rbuf = bytes(recvd); raise *)
   end.
+
+Definition recv_until (s : bs) (d : bytes) (m : msz) (w : bool) : outcome * bs :=
+  recv_until_dl (dl s) s d m w.
 
 (* ---- recv_size --------------------------------------------------------------------------- *)
 Definition reached (size : limit) (total : nat) : bool :=     (* total_bytes >= size *)
@@ -115,8 +127,9 @@ Inductive rs_res :=
 | RsDone (acc : bytes) (total : nat) (nxt : bytes)   (* break: acc = join(chunks) *)
 | RsExn (e : exn) (acc : bytes).                      (* self.rbuf = join(chunks); raise *)
 
-(* `while nxt:` ... `else: raise ConnectionClosed` *)
-Fixpoint rs_loop (fuel : nat) (size : limit) (rsz : nat) (acc : bytes) (total : nat)
+(* `while nxt:` ... `else: raise ConnectionClosed`; the deadline check sits
+   between chunks.append(nxt) and the next sock.recv *)
+Fixpoint rs_loop (fuel : nat) (size : limit) (rsz : nat) (d_on late : bool) (acc : bytes) (total : nat)
          (nxt : bytes) (n : net) : rs_res * net :=
   match fuel with
   | 0 => (RsExn OutOfFuel acc, n)
@@ -126,9 +139,10 @@ Fixpoint rs_loop (fuel : nat) (size : limit) (rsz : nat) (acc : bytes) (total : 
       | _ =>
           let total' := total + length nxt in
           if reached size total' then (RsDone acc total' nxt, n)
+          else if d_on && late then (RsExn Timeout (acc ++ nxt), n)
           else match sock_recv rsz n with
                | (RIntr e, n') => (RsExn e (acc ++ nxt), n')
-               | (RData nxt', n') => rs_loop f size rsz (acc ++ nxt) total' nxt' n'
+               | (RData nxt', n') => rs_loop f size rsz d_on (late || slow_head n) (acc ++ nxt) total' nxt' n'
                end
       end
   end.
@@ -143,7 +157,9 @@ Definition recv_size_lim (s : bs) (size : limit) : outcome * bs :=
   match first with
   | (RIntr e, n') => (OExn e, set_recv s [] n')
   | (RData nxt, n') =>
-      match rs_loop (S (S (net_size n'))) size (recvsize s) [] 0 nxt n' with
+      (* the first chunk came from the buffer (no time passed) or from one recv *)
+      let late := match rbuf s with [] => slow_head (nt s) | _ => false end in
+      match rs_loop (S (S (net_size n'))) size (recvsize s) (dl s) late [] 0 nxt n' with
       | (RsExn e acc, n'') => (OExn e, set_recv s acc n'')
       | (RsDone acc total nxt', n'') =>
           let extra := total - match size with Some k => k | None => 0 end in
@@ -187,13 +203,13 @@ Definition recv (s : bs) (size : nat) : outcome * bs :=
 
 (* ---- send side --------------------------------------------------------------------------------- *)
 Definition set_send (s : bs) (sb : list bytes) (sc : list sev) (w : bytes) : bs :=
-  mkBS (rbuf s) (nt s) (maxsize s) (recvsize s) sb sc w.
+  mkBS (rbuf s) (nt s) (maxsize s) (recvsize s) sb sc w (dl s).
 
 (* `while sbuf[0]:` sent = sock.send(sbuf[0]); sbuf[0] = sbuf[0][sent:]
    sbuf[0] is trimmed after every partial send, so whatever exception ends the
    loop (socket.timeout -> Timeout, anything else propagates) the buffer holds
    exactly the unsent rest *)
-Fixpoint send_loop (fuel : nat) (cur : bytes) (total : nat) (sc : list sev) (w : bytes)
+Fixpoint send_loop (fuel : nat) (d_on late : bool) (cur : bytes) (total : nat) (sc : list sev) (w : bytes)
   : (nat + exn) * bytes * list sev * bytes (* inl total | inr exception; sbuf[0]; script; wire *) :=
   match fuel with
   | 0 => (inr OutOfFuel, cur, sc, w)           (* unreachable with fuel = S (len cur); see send *)
@@ -202,7 +218,11 @@ Fixpoint send_loop (fuel : nat) (cur : bytes) (total : nat) (sc : list sev) (w :
       | [] => (inl total, [], sc, w)
       | _ => match sock_send cur sc with
              | (SIntr e, sc') => (inr e, cur, sc', w)
-             | (SSent k, sc') => send_loop f (skipn k cur) (total + k) sc' (w ++ firstn k cur)
+             | (SSent k, sc') =>
+                 (* sbuf[0] = sbuf[0][sent:]; then the deadline check, even if nothing is left *)
+                 let late' := late || sslow_head sc in
+                 if d_on && late' then (inr Timeout, skipn k cur, sc', w ++ firstn k cur)
+                 else send_loop f d_on late' (skipn k cur) (total + k) sc' (w ++ firstn k cur)
              end
       end
   end.
@@ -218,7 +238,7 @@ Definition sbuf_head (sb : list bytes) : bytes := match sb with c :: _ => c | []
 
 Definition send (s : bs) (data : bytes) : outcome * bs :=
   let cur := sbuf_head (join_sbuf (sbuf s ++ [data])) in
-  match send_loop (S (length cur)) cur 0 (script s) (wire s) with
+  match send_loop (S (length cur)) (dl s) false cur 0 (script s) (wire s) with
   | (inl total, cur', sc', w') => (ONat total, set_send s [cur'] sc' w')
   | (inr e, cur', sc', w') => (OExn e, set_send s [cur'] sc' w')
   end.
@@ -240,7 +260,7 @@ Definition step (s : bs) (o : op) : outcome * bs :=
   | Peek n => peek s n
   | RecvClose m => recv_close s m
   | Recv n => recv s n
-  | SetMaxsize m => (ONone, mkBS (rbuf s) (nt s) m (recvsize s) (sbuf s) (script s) (wire s))
+  | SetMaxsize m => (ONone, mkBS (rbuf s) (nt s) m (recvsize s) (sbuf s) (script s) (wire s) (dl s))
   | Send d => send s d
   | Buffer d => buffer s d
   | Flush => flush s
@@ -253,8 +273,8 @@ Definition getsendbuffer (s : bs) : bytes := concat (sbuf s).
 Definition consumed (stream_len : nat) (s : bs) : nat := stream_len - length (flat (nt s)).
 
 Definition observe (stream_len : nat) (o : op) (out : outcome) (s : bs) : step_obs :=
-  if is_send_op o then mkObs out (getsendbuffer s) (length (wire s))
-  else mkObs out (getrecvbuffer s) (consumed stream_len s).
+  if is_send_op o then mkObs out (getsendbuffer s) (length (wire s)) (length (sintrs (script s)))
+  else mkObs out (getrecvbuffer s) (consumed stream_len s) (length (intrs (nt s))).
 
 Fixpoint run (stream_len : nat) (s : bs) (ops : list op) : list (op * step_obs) * bs :=
   match ops with
@@ -283,7 +303,7 @@ Fixpoint run_retry (s : bs) (ops : list op) : list outcome :=
   match ops with
   | [] => []
   | o :: r =>
-      let '(out, s') := step_retry (timeouts (nt s)) s o in
+      let '(out, s') := step_retry (net_size (nt s)) s o in
       out :: run_retry s' r
   end.
 
@@ -315,23 +335,26 @@ Definition py_str (n : nat) : bytes := dec n.
 Record ns := mkNS {
   ns_bs : bs;               (* self.bsock = BufferedSocket(sock): default maxsize/recvsize *)
   ns_maxsize : nat;
-  ns_msgsize_maxsize : nat  (* len(str(maxsize)) + 1 *)
+  ns_msgsize_maxsize : nat; (* len(str(maxsize)) + 1 *)
+  ns_dl : bool              (* bool(self.timeout): the timeout read_ns passes to recv_until *)
 }.
 
 Definition DEFAULT_MAXSIZE := 32768.
 Definition calc_msgsize_maxsize (mx : nat) : nat := length (py_str mx) + 1.
 
-Definition ns_init (mx : nat) (n : net) (sc : list sev) : ns :=
-  mkNS (bs_init DEFAULT_MAXSIZE DEFAULT_MAXSIZE n sc) mx (calc_msgsize_maxsize mx).
+(* BufferedSocket(sock) takes DEFAULT_TIMEOUT when the socket has none: its deadline checks are on *)
+Definition ns_init_dl (mx : nat) (d : bool) (n : net) (sc : list sev) : ns :=
+  mkNS (bs_init_dl DEFAULT_MAXSIZE DEFAULT_MAXSIZE true n sc) mx (calc_msgsize_maxsize mx) d.
+Definition ns_init (mx : nat) (n : net) (sc : list sev) : ns := ns_init_dl mx true n sc.
 
-Definition with_bs (x : ns) (s : bs) : ns := mkNS s (ns_maxsize x) (ns_msgsize_maxsize x).
+Definition with_bs (x : ns) (s : bs) : ns := mkNS s (ns_maxsize x) (ns_msgsize_maxsize x) (ns_dl x).
 
 Definition read_ns (x : ns) (m : option nat) : outcome * ns :=
   let '(mx, msg_mx) := match m with
                        | None => (ns_maxsize x, ns_msgsize_maxsize x)
                        | Some k => (k, calc_msgsize_maxsize k)
                        end in
-  match recv_until (ns_bs x) [58%N] (MVal msg_mx) false with
+  match recv_until_dl (ns_dl x) (ns_bs x) [58%N] (MVal msg_mx) false with
   | (OBytes size_prefix, s1) =>
       match py_int size_prefix with
       | None => (OExn NetstringInvalidSize, with_bs x s1)
@@ -366,7 +389,7 @@ Definition ns_step (x : ns) (o : nsop) : outcome * ns :=
   match o with
   | ReadNs m => read_ns x m
   | WriteNs p => write_ns x p
-  | NsSetMaxsize n => (ONone, mkNS (ns_bs x) n (calc_msgsize_maxsize n))
+  | NsSetMaxsize n => (ONone, mkNS (ns_bs x) n (calc_msgsize_maxsize n) (ns_dl x))
   | NsFlush => let '(out, s') := flush (ns_bs x) in (out, with_bs x s')
   end.
 
@@ -378,7 +401,9 @@ Fixpoint ns_run (wside : bool) (stream_len : nat) (x : ns) (ops : list nsop) : l
       let '(out, x') := ns_step x o in
       let ob := if wside
                 then mkObs out (getsendbuffer (ns_bs x')) (length (wire (ns_bs x')))
-                else mkObs out (getrecvbuffer (ns_bs x')) (consumed stream_len (ns_bs x')) in
+                           (length (sintrs (script (ns_bs x'))))
+                else mkObs out (getrecvbuffer (ns_bs x')) (consumed stream_len (ns_bs x'))
+                           (length (intrs (nt (ns_bs x')))) in
       let '(obs, x'') := ns_run wside stream_len x' r in
       ((o, ob) :: obs, x'')
   end.
@@ -397,6 +422,6 @@ Fixpoint ns_read_retry (x : ns) (k : nat) : list outcome :=
   match k with
   | 0 => []
   | S k' =>
-      let '(out, x') := read_ns_retry (timeouts (nt (ns_bs x))) x None in
+      let '(out, x') := read_ns_retry (net_size (nt (ns_bs x))) x None in
       out :: ns_read_retry x' k'
   end.
